@@ -1361,6 +1361,8 @@ class TaskScenario(ScenarioData):
         # (they work together as a team - can't progress if any member is unavailable)
         if effort > 0 and len(resources_to_book) > 1:
             all_available = True
+            tentative: list[Any] = []
+            slot_idx = self.currentSlotIdx if self.currentSlotIdx is not None else 0
             for resource in resources_to_book:
                 res_scenario = resource.data[self.scenarioIdx] if resource.data else None
                 if res_scenario is None:
@@ -1368,7 +1370,6 @@ class TaskScenario(ScenarioData):
                     break
                 if res_scenario.scoreboard is None:
                     res_scenario.prepareScheduling()
-                slot_idx = self.currentSlotIdx if self.currentSlotIdx is not None else 0
                 if not res_scenario.available(slot_idx):
                     all_available = False
                     break
@@ -1376,6 +1377,13 @@ class TaskScenario(ScenarioData):
                 if not self.limitsOk(slot_idx, resource):
                     all_available = False
                     break
+                # Members may share a limit (a group's or a task's): count this member
+                # while the remaining ones are checked, so that the last free unit of a
+                # shared limit is not promised to several members at once.
+                self._countInLimits(resource, slot_idx, 1)
+                tentative.append(resource)
+            for resource in tentative:
+                self._countInLimits(resource, slot_idx, -1)
 
             if not all_available:
                 # Can't book - one or more resources unavailable
@@ -1460,6 +1468,23 @@ class TaskScenario(ScenarioData):
         if granted is None:
             return 0.0
         return max(0.0, slot_duration - granted)
+
+    def _countInLimits(self, resource: Any, sb_idx: int, delta: int) -> None:
+        """Add (delta > 0) or take back one booking of the resource in every limit that a real booking counts in."""
+        node = resource
+        while node:
+            limits = node.get("limits", self.scenarioIdx)
+            if limits and hasattr(limits, "inc"):
+                if delta > 0:
+                    limits.inc(sb_idx)
+                else:
+                    limits.dec(sb_idx)
+            node = node.parent
+        for limits in self.getAllLimits():
+            if delta > 0:
+                limits.inc(sb_idx, resource=resource.id)
+            else:
+                limits.dec(sb_idx, resource=resource.id)
 
     def getAllLimits(self) -> list[Any]:
         """
